@@ -47,6 +47,7 @@ def run(rep):
     rep.run(incidence)
     rep.run(rxnside)
     rep.run(mol_guards)
+    rep.run(netfold)
 
 
 # ------------------------------------------------------------------ O15.1
@@ -496,3 +497,8 @@ TWINS = [
     dict(name="sparse branch with explicit negative add", file=HG,
          old="                    mapping[(s, eid)] = mapping.get((s, eid), 0) - int(c)", new="                    mapping[(s, eid)] = mapping.get((s, eid), 0) - 1 * int(c)"),
 ]
+
+
+def netfold(rep):
+    from ..rules import netfold as NF
+    NF.check(rep, "O15.4", (HG, RX, "synkit/CRN/Hypergraph/hyperedge.py"), "the incidence matrix disagrees with the stored reactions")
